@@ -68,12 +68,22 @@ Record lcase := LC {
   lc_bdec : option uv;       (* the bytes unpacker on this input *)
   lc_v : uv;
   lc_obs : option uv;
-  lc_ref : option uv;        (* Python reference: exactly the listed values *)
-  lc_homog : bool
+  lc_ref : option uv         (* Python reference: exactly the listed values *)
 }.
 Definition lcase_ok_model (c: lcase) : bool := ouv_eqb (lit_dec (fun _ => lc_bdec c) (lc_lits c) (lc_v c)) (lc_obs c).
 Definition lcase_ok_ref (c: lcase) : bool := ouv_eqb (ref_lit (fun _ => lc_bdec c) (lc_lits c) (lc_v c)) (lc_ref c).
-Definition lcase_ok_homog (c: lcase) : bool := Bool.eqb (lit_homog (fun _ => lc_bdec c) (lc_lits c) (lc_v c)) (lc_homog c).
-Definition lcase_ok (c: lcase) : bool := lcase_ok_model c && lcase_ok_ref c && lcase_ok_homog c.
-Definition lcase_stale (c: lcase) : bool :=
-  negb (lcase_ok_model c) && lcase_ok_ref c && ouv_eqb (lc_obs c) (lc_ref c) && negb (lit_homog (fun _ => lc_bdec c) (lc_lits c) (lc_v c)).
+Definition lcase_ok_dom (c: lcase) : bool := lit_nofloat (lc_lits c).
+Definition lcase_ok (c: lcase) : bool := lcase_ok_model c && lcase_ok_ref c && lcase_ok_dom c.
+
+(* Literal encode: outcome None = raised; the bytes packer's behaviour on the value is observed *)
+Record lecase := LEC {
+  le_lits : list lit;
+  le_benc : option uv;
+  le_v : uv;
+  le_obs : option uv;
+  le_ref : option uv
+}.
+Definition flat (o: option (option uv)) : option uv := match o with Some r => r | None => None end.
+Definition lecase_ok_model (c: lecase) : bool := ouv_eqb (flat (lit_enc (fun _ => le_benc c) (le_lits c) (le_v c))) (le_obs c).
+Definition lecase_ok_ref (c: lecase) : bool := ouv_eqb (flat (ref_lit_enc (fun _ => le_benc c) (le_lits c) (le_v c))) (le_ref c).
+Definition lecase_ok (c: lecase) : bool := lecase_ok_model c && lecase_ok_ref c && lit_nofloat (le_lits c).
